@@ -268,6 +268,8 @@ func c01Case(c *Ctx, tr interface{}, tag string) {
 	c.Tag(tag)
 	// the same value through the deep model (writer and reader on JSON trees)
 	c.Emit(map[string]interface{}{"op": "deepRoundTrip", "v": tr}, shown, false)
+	// … and every value of the property's domain must lie inside the domain of the whole-tree theorem
+	c.Emit(map[string]interface{}{"op": "deepWF", "v": tr}, true, false)
 	if viol != "" {
 		cls := "C01/roundtrip"
 		if strings.HasPrefix(viol, "panic") {
